@@ -247,7 +247,12 @@ def check(repo, rep):
         rep.ob('samples are decoded with numpy.frombuffer(data, dtype=...)', okb, where, 'to_array:frombuffer', 'decodes with %s' % show(base)[:100])
         if okb:
             dt = dict(base[3]).get('dtype', base[2][1] if len(base[2]) > 1 else None)
-            okd = dt is not None and dt[0] == 'call' and dt[1][0] == 'g' and dt[2] == (('p', 'sample_width'),)
+            def is_table(g_):
+                lk_ = cx.model.lookup(g_) if g_[0] == 'g' else None
+                return bool(lk_) and lk_[0] == 'const' and isinstance(lk_[1], ast.Dict)
+            okd = dt is not None and ((dt[0] == 'call' and dt[1][0] == 'g' and dt[2] == (('p', 'sample_width'),))                                  # helper(sample_width)
+                                      or (dt[0] == 'call' and dt[1][0] == 'attr' and dt[1][2] == 'get' and is_table(dt[1][1]) and dt[2][:1] == (('p', 'sample_width'),))   # TABLE.get(sample_width)
+                                      or (dt[0] == 'sub' and is_table(dt[1]) and dt[2] == ('p', 'sample_width')))                                 # TABLE[sample_width]
             rep.ob('the dtype is looked up from the sample width', okd, where, 'to_array:dtype-lookup', 'dtype is %s' % (show(dt)[:80] if dt else None))
     # dtype table
     tab = cx.model.mods['signal']['consts'].get('SAMPLE_WIDTH_TO_DTYPE')
@@ -278,8 +283,16 @@ def check(repo, rep):
         where = cx.where('util', l.node)
         conds = l.conds
         is_mono = any(norm_cmp(c[0], c[1]) == ('==', ('p', 'channels'), ('c', 1)) for c in conds)
-        anyc = [c for c in conds if c[0][0] == 'cmp' and c[0][1] == 'in' and c[0][2] == ('p', 'selected') and any(x == ('c', None) for x in walk(c[0][3]))]
-        mixc = [c for c in conds if c[0][0] == 'cmp' and c[0][1] == 'in' and c[0][2] == ('p', 'selected') and any(x == ('c', 'mix') for x in walk(c[0][3]))]
+        def member(key):
+            # [(set term, is-member?)] for the tests `selected in <set containing key>` on this path (written with `in` or `not in`)
+            out = []
+            for c in conds:
+                g = norm_cmp(c[0], c[1])
+                if g and g[0] in ('in', 'not in') and g[1] == ('p', 'selected') and any(x == ('c', key) for x in walk(g[2])):
+                    out.append((('cmp', 'in', g[1], g[2]), g[0] == 'in'))
+            return out
+        anyc = member(None)
+        mixc = member('mix')
         intc = [c for c in conds if c[0][0] == 'call' and c[0][1] == ('b', 'isinstance') and c[0][2] == (('p', 'selected'), ('b', 'int'))]
         for c in anyc:
             sel_sets.append(frozenset(x[1] for x in c[0][3][1] if x[0] == 'c'))
@@ -303,7 +316,27 @@ def check(repo, rep):
                 ok = v[0] == 'lambda' and len(v[1]) == 1 and v[2][0] == 'sub' and P.call(to_arr, P.Pat(lambda t, _v=v: t == ('lp', _v[1][0]), 'x'))(v[2][1])
                 idx = v[2][2] if ok else None
                 okidx = idx in (('p', 'selected'), ('bin', '+', ('p', 'selected'), ('p', 'channels')))
-                rep.ob('an integer selects that channel\'s row of the de-interleaved array', ok and okidx, where, 'make_channel_selector[int]:row', 'selector is %s' % show(v)[:140], sample=dict(mode='int', selector=show(v)[:120]))
+                why = ''
+                if ok and not okidx:
+                    # not one of the two textbook forms: decide by evaluating the row index under this path's condition
+                    from ..semantic import evaluator, holds, value, Undecided
+                    try:
+                        okidx, npt = True, 0
+                        for ch_ in (2, 3, 4):
+                            for sel_ in range(-ch_ - 1, ch_ + 1):
+                                a_ = {('p', 'selected'): sel_, ('p', 'channels'): ch_}
+                                if not holds(l, evaluator(a_)):
+                                    continue
+                                npt += 1
+                                got = value(idx, evaluator(a_))
+                                if not isinstance(got, int) or isinstance(got, bool) or not (-ch_ <= got < ch_) or got % ch_ != sel_ % ch_:
+                                    okidx, why = False, ' (selected=%d with %d channels picks row %r)' % (sel_, ch_, got)
+                        if npt == 0:
+                            raise Undecided('no grid point satisfies the path condition')
+                    except Undecided as exc:
+                        rep.unknown('make_channel_selector[int]: row index %s not evaluable (%s)' % (show(idx)[:80], exc))
+                        continue
+                rep.ob('an integer selects that channel\'s row of the de-interleaved array', ok and okidx, where, 'make_channel_selector[int]:row', 'selector is %s%s' % (show(v)[:140], why), sample=dict(mode='int', selector=show(v)[:120]))
             continue
         if mixc and mixc[0][1]:
             seen['mix'] += 1
@@ -321,15 +354,33 @@ def check(repo, rep):
             rep.ob('every other channel selection is rejected', False, where, 'make_channel_selector[unknown]:accepted', 'returns %s under %s' % (show(l.value)[:60], [(show(c[0])[:40], c[1]) for c in conds]))
     for k, n in seen.items():
         rep.ob('make_channel_selector has a %s branch' % k, n >= 1, cx.where('util', sfn), 'make_channel_selector:missing-%s' % k)
-    # integer guard region == { -channels <= selected < channels } (given channels >= 2), by mutual entailment
-    s_, c_ = LV('selected'), LV('channels')
-    spec = [lge(s_, lscale(c_, -1)), llt(s_, c_)]
-    base = [lge(c_, LC(2))]
-    for cs, l in int_accept:
-        for g in spec:
-            rep.ob('accepted channel indices lie in [-channels, channels)', entails(base + cs, g), cx.where('util', l.node), 'make_channel_selector[int]:accept-region', 'accepting path %s' % [(show(c[0])[:40], c[1]) for c in l.conds[-3:]])
-    for cs, l in int_reject:
-        rep.ob('no index in [-channels, channels) is rejected', not feasible(base + cs + spec), cx.where('util', l.node), 'make_channel_selector[int]:reject-region', 'rejecting path %s' % [(show(c[0])[:40], c[1]) for c in l.conds[-3:]])
+    # integer guard region == { -channels <= selected < channels } (given channels >= 2): the path taken by each (selected, channels)
+    # of a small grid is selected by evaluating the path conditions; it must accept exactly the indices of the region
+    from ..semantic import evaluator, holds, Undecided
+    from ..facts import split_ites
+    try:
+        bad = None
+        npt = 0
+        sl2 = split_ites(sl)
+        for ch_ in (2, 3, 5):
+            for sel_ in range(-ch_ - 3, ch_ + 4):
+                a_ = {('p', 'selected'): sel_, ('p', 'channels'): ch_}
+                hit = [l for l in sl2 if holds(l, evaluator(a_))]
+                if len(hit) != 1:
+                    raise Undecided('%d paths apply to selected=%d, channels=%d' % (len(hit), sel_, ch_))
+                l = hit[0]
+                npt += 1
+                inside = -ch_ <= sel_ < ch_
+                if inside and l.outcome == 'raise':
+                    bad = bad or (l, 'channel index %d of %d channels is rejected (%s)' % (sel_, ch_, exc_name(l)))
+                if not inside and l.outcome != 'raise':
+                    bad = bad or (l, 'channel index %d of %d channels is accepted (outside [-channels, channels))' % (sel_, ch_))
+                if not inside and l.outcome == 'raise' and exc_name(l) != 'ValueError':
+                    bad = bad or (l, 'channel index %d of %d channels raises %s, not ValueError' % (sel_, ch_, exc_name(l)))
+        rep.ob('integer channel indices are accepted exactly in [-channels, channels), ValueError outside', bad is None, cx.where('util', bad[0].node) if bad and bad[0].node is not None else cx.where('util', sfn),
+               'make_channel_selector[int]:region', bad[1] if bad else None, sample=dict(rule='index region', grid_points=npt))
+    except Undecided as exc:
+        rep.unknown('make_channel_selector: integer index region not decided (%s)' % exc)
     # sibling agreement: the "all channels" name set is the same in selector and aggregation
     for a in all_sets:
         for b in sel_sets:
